@@ -21,7 +21,7 @@ TReset == /\ Cur("Reset") /\ E.inline = InlineAt /\ E.interval = Interval
           /\ req' = [p \in Producers |-> NoReq] /\ art' = [p \in Producers |-> NoArt]
           /\ segUp' = [p \in Producers |-> "none"] /\ idxUp' = [p \in Producers |-> "none"]
           /\ pubVal' = [p \in Producers |-> -1] /\ sent' = [p \in Producers |-> 0]
-          /\ faults' = 0 /\ crashes' = 0 /\ acked' = {} /\ hwReg' = FALSE /\ nextReg' = FALSE /\ hwMax' = 0 /\ hist' = <<>>
+          /\ faults' = 0 /\ crashes' = 0 /\ acked' = {} /\ hwReg' = FALSE /\ nextReg' = FALSE /\ hwMax' = 0 /\ lost' = {} /\ hist' = <<>>
 TAppend == /\ Cur("Append") /\ Append_(E.p, [n |-> E.n, kind |-> E.kind])
            /\ req'[E.p].base = E.a /\ req'[E.p].id[2] = E.k
            /\ (pc'[E.p] = "upload") = (E.b = 1) /\ StMatch(E.st)
@@ -45,8 +45,9 @@ TErr == Cur("Err") /\ pc[E.p] = "err" /\ Err(E.p)
 \* a malformed batch is refused before AppendBatch: no Append line, only the error reply
 TRejected == /\ Cur("Err") /\ pc[E.p] = "idle" /\ up /\ FixValidate /\ E.kind # "ok" /\ sent[E.p] + 1 = E.k
              /\ sent' = [sent EXCEPT ![E.p] = @ + 1]
-             /\ UNCHANGED <<mem, up, rfail, restarted, s3seg, s3idx, storeNext, pc, stage, req, art, segUp, idxUp, pubVal, faults, crashes, acked, hwReg, nextReg, hwMax, hist>>
+             /\ UNCHANGED <<mem, up, rfail, restarted, s3seg, s3idx, storeNext, pc, stage, req, art, segUp, idxUp, pubVal, faults, crashes, acked, hwReg, nextReg, hwMax, lost, hist>>
 TCrash == Cur("Crash") /\ Crash
+TLoseIdx == Cur("LoseIdx") /\ LoseIdx(E.base)
 \* getPartitionLog's own lines (RestoreFromS3's hook, the store sync) precede the Restart line
 TRestoreLines == /\ (Cur("Restore") \/ (Cur("UpdateOffsets") /\ E.p = "")) /\ ~up /\ UNCHANGED vars
 TRestart == /\ Cur("Restart") /\ Restart /\ up' = E.ok
@@ -59,7 +60,7 @@ TGrid == /\ Cur("Grid") /\ up /\ UNCHANGED vars
                 /\ (r.kind = "ok" => (r.aligned /\ r.intact /\ m.first = r.first /\ m.starts = Range(r.starts) /\ m.len = r.len))
 Consumed == TLCSet(7, IF TLCGet(7) < l THEN l ELSE TLCGet(7))
 TNext == \/ (TReset \/ TAppend \/ TFlushWait \/ TFlushPrepare \/ TPutSeg \/ TPutIdx \/ TSkip \/ TFail \/ TCommit \/ TPubRead \/ TPublish
-             \/ TAck \/ TErr \/ TRejected \/ TCrash \/ TRestoreLines \/ TRestart \/ TGrid) /\ Consumed
+             \/ TAck \/ TErr \/ TRejected \/ TCrash \/ TLoseIdx \/ TRestoreLines \/ TRestart \/ TGrid) /\ Consumed
          \/ \E p \in Producers : SilentPublish(p)
 TSpec == TInit /\ [][TNext]_tvars
 Reached == PrintT(<<"CONF", ToJson([reached |-> TLCGet(7), total |-> Len(TraceLog)])>>)
